@@ -1,3 +1,99 @@
+import QmiModel.Model.Task
 import Drv.Common
-/-! stub driver for C10: replaced when the model is built -/
-def main : IO Unit := Drv.main' (fun (s : Unit) _ => (s, "bad-op")) ()
+/-! Trace-refinement driver for C10.
+
+Input lines
+  `init`                          reset to `Task.init`                      → `ok`
+  `<act>|<res>|<abs>`             one logged event: the action must be enabled, the reported result must be
+                                  `Task.res`, the reported abstraction of the real state must be the successor
+                                  state                                      → `ok` / `disabled …` / `mismatch …`
+  `blocked join <0|1>`            the scheduler reported "join waits for ever" (arg: task body parked until a
+                                  stop request)                              → `ok` iff `join` is not enabled and no
+                                  thread action is enabled either
+`<act>` = initOk initFail wake runEnter updCheck updPop runEnd:<ret|stopExc|otherExc> mark threadEnd ctorWait ctorGet
+          startCheck startKick stopRegion stopSet join isRunning set:<n> getSettings getPending
+          tregion   (a `with _state_cond:` region of `_TaskThread.run`; which one follows from the thread's pc)
+-/
+open QmiModel.Task
+
+def tsName : TS → String
+  | .initial => "INITIAL" | .excInit => "EXCEPTION_WHILE_INSTANTIATING_TASK" | .ready => "READY_TO_RUN"
+  | .running => "RUNNING" | .excRun => "EXCEPTION_WHILE_RUNNING_TASK" | .completed => "TASK_COMPLETED_NORMALLY"
+  | .stopped => "TASK_STOPPED_BEFORE_START"
+
+def b01 (b : Bool) : String := if b then "1" else "0"
+def optS : Option Nat → String | none => "-" | some n => toString n
+
+def absOf (s : State) : String :=
+  s!"{tsName s.st} {b01 s.exc} {b01 s.stopReq} {optS s.slot} {optS s.settings} {b01 s.joined}"
+
+def resName : Res → String
+  | .none => "none" | .unit => "unit" | .pending => "pending"
+  | .bool b => if b then "true" else "false"
+  | .val v => "val:" ++ optS v
+  | .usageError => "exc:QMI_UsageException" | .taskRunError => "exc:QMI_TaskRunException"
+  | .taskInitError => "exc:QMI_TaskInitException" | .assertionError => "exc:AssertionError"
+  | .indexError => "exc:IndexError"
+
+def pcName : Pc → String
+  | .init => "init" | .waiting => "waiting" | .goRun => "goRun" | .inRun => "inRun" | .inUpd => "inUpd"
+  | .ranOut .ret => "ranOut:ret" | .ranOut .stopExc => "ranOut:stopExc" | .ranOut .otherExc => "ranOut:otherExc"
+  | .exiting => "exiting" | .ended => "ended"
+
+def phaseName : Phase → String | .ctor0 => "ctor0" | .ctor1 => "ctor1" | .up => "up" | .failed => "failed"
+def rpcName : Rpc → String | .idle => "idle" | .startMid => "startMid" | .stopMid => "stopMid"
+
+def ctlOf (s : State) : String := s!"pc={pcName s.pc} phase={phaseName s.phase} rpc={rpcName s.rpc}"
+
+/-- parse an action token; `tregion` is resolved from the thread's pc and the reported thread state -/
+def parseAct (s : State) (tok : String) (abs : String) : Option Act :=
+  match tok.splitOn ":" with
+  | ["initOk"] => some .initOk | ["initFail"] => some .initFail | ["wake"] => some .wake
+  | ["runEnter"] => some .runEnter | ["updCheck"] => some .updCheck | ["updPop"] => some .updPop
+  | ["runEnd", "ret"] => some (.runEnd .ret) | ["runEnd", "stopExc"] => some (.runEnd .stopExc)
+  | ["runEnd", "otherExc"] => some (.runEnd .otherExc)
+  | ["mark"] => some .mark | ["threadEnd"] => some .threadEnd
+  | ["ctorWait"] => some .ctorWait | ["ctorGet"] => some .ctorGet
+  | ["startCheck"] => some .startCheck | ["startKick"] => some .startKick
+  | ["stopRegion"] => some .stopRegion | ["stopSet"] => some .stopSet
+  | ["join"] => some .join | ["isRunning"] => some .isRunning
+  | ["set", n] => n.toNat?.map .setSettings
+  | ["getSettings"] => some .getSettings | ["getPending"] => some .getPending
+  | ["tregion"] =>
+    match s.pc with
+    | .init => if abs.startsWith "EXCEPTION_WHILE_INSTANTIATING_TASK " then some .initFail else some .initOk
+    | .waiting => some .wake
+    | .ranOut _ => some .mark
+    | _ => none
+  | _ => none
+
+def stepLine (s : State) (line : String) : State × String :=
+  if line == "init" then (init, "ok") else
+  match line.splitOn "|" with
+  | [tok, r, abs] =>
+    if tok == "tregion" && (match s.pc with | .init => false | .waiting => false | .ranOut _ => false | _ => true) then
+      (s, s!"disabled tregion at {ctlOf s} {absOf s}")
+    else
+    match parseAct s tok abs with
+    | none => (s, "bad-op")
+    | some a =>
+      match step s a with
+      | none => (s, s!"disabled {tok} at {ctlOf s} {absOf s}")
+      | some s' =>
+        if resName (res s a) != r then (s', s!"mismatch res model={resName (res s a)} at {ctlOf s} {absOf s}")
+        else if absOf s' != abs then (s', s!"mismatch state model={absOf s'} after {ctlOf s'}")
+        else (s', "ok")
+  | [single] =>
+    match single.splitOn " " with
+    | ["blocked", "join", bb] =>
+      if bb != "0" && bb != "1" then (s, "bad-op") else
+      let bodyBlocked := bb == "1"
+      if !s.free then (s, s!"mismatch runner-not-free {ctlOf s}")
+      else if (step s .join).isSome then (s, s!"mismatch join-enabled {ctlOf s} {absOf s}")
+      else if threadCanMove s then (s, s!"mismatch thread-can-move {ctlOf s} {absOf s}")
+      else if s.pc == .inRun && !bodyBlocked then (s, s!"mismatch body-not-blocked {ctlOf s}")
+      else (s, "ok")
+    | _ => (s, "bad-op")
+  | _ => (s, "bad-op")
+
+def main : IO Unit := Drv.main' stepLine init
